@@ -26,7 +26,7 @@ func init() { commands["imagexform"] = imagexformCmd }
 
 type xcfg struct {
 	SW, SH, SX, SY, DX, DY, EW, EH, ML, MR, MT, MB, P int
-	Inplace                                          bool
+	Inplace                                           bool
 }
 
 func (c *xcfg) UnmarshalJSON(b []byte) error {
